@@ -252,3 +252,21 @@ _deductive('C15',
                         '(enumerated by the bounded layer for all strings up to length 5 / 6), not mechanised'],
            ['<descriptor_id> alphabet: lenient reading (any character other than @ [ ] : / . > and whitespace), fail-fast on the first character as the '
             'repository tests require'])
+
+_deductive('C10',
+           'Proved for all inputs (any section layout, any number of subsets, any non-empty index list): BufrMessage.subset refuses with '
+           'PyBufrKitError exactly when some index is outside 0..n-1; otherwise the result has one row per section and one slot per parameter, '
+           'the data-section slot holds the value lists of the selected subsets -- the very list objects of the source, every selected entry is '
+           'a subset that was asked for, in strictly increasing subset order (hence each at most once), and every subset asked for is present --, '
+           'the n_subsets slot holds the number of DISTINCT indices, every other slot holds the source value unchanged, and nothing reachable '
+           'from the source message is written (frame). Bounded: encode / decode of the subset message on generated and corpus messages.',
+           'Trusted: list / dict models, len(set(l)) as the number of distinct elements (characterised: <= len, >= 1 when non-empty, < len iff a '
+           'duplicate exists), the index maps of the list comprehension as ghosts of its result. Bounded (not proved): that the encoder turns the '
+           'returned rows into a message that decodes to the selected subsets (composition with C02 / C03 / C05).',
+           {'pybufrkit.bufr.BufrMessage.subset': 'C10'},
+           [L['L1'], L['L6'], L['term'],
+            'len(set(l)) for a list of ints: number of distinct elements, characterised by 0 <= nd <= len, nd >= 1 when non-empty, nd < len iff two '
+            'positions hold equal values',
+            'filter comprehension = strictly increasing index map onto exactly the positions that pass the filter (engine model, DESIGN 3.2)',
+            'BufrSection abstracted to its ordered parameter list; SectionParameter.value of the data section is a TemplateData object'],
+           ['subset_indices is a non-empty list of ints (as in the quantifier); a set / tuple argument is not covered by the contract'])
